@@ -206,7 +206,11 @@ def keep_alive(chk):
                 return any(("x" + ext).endswith(s) for s in sufs)
             return None
 
-        outs = Interp(prog, load, decide=decide).run()
+        def dispatch_helper(f, ct):
+            """a module-level helper of the same module that wraps one of the two loaders"""
+            return f.cls is None and f.module is load.module and f is not load and any(isinstance(c, ast.Call) and prog.resolve(f.module, c.func) in (YAML_LOAD, PY_LOAD) for c in ast.walk(f.node))
+
+        outs = Interp(prog, load, decide=decide, inline=dispatch_helper).run()
         chk.count(len(outs))
         for o in outs:
             forks = [e for e in o.path.events if e[0] in ("branch", "fork") and e[-1] == "forked"]
@@ -336,3 +340,8 @@ def run(chk):
     chk.guard("O13.2", LOAD_SERVICES, keep_alive, chk)
     # a failing service / failing load is a failing payload: the fail-stop chain (shared with C01)
     c01.run(chk)
+    # "starts every service among them exactly once": the unit typestate and the sweep (shared with C03)
+    from . import c03
+
+    chk.guard("O3.6", c03.SERVICE_UNIT, c03.service_typestate, chk)
+    chk.guard("O3.7", c03.SERVICE_RUNNER, c03.sweep_rules, chk)
